@@ -185,6 +185,9 @@ func genC20(env *core.Env, emit func(core.Case)) {
 	u, _ := url.Parse(ts.URL + "/client/v4/zones")
 	n := env.Pick(250, 4000)
 	for i := 0; i < n; i++ {
+		// a fresh publisher per case (it remembers zone ids); its idle HTTP connection is closed from the
+		// server side afterwards, otherwise thousands of publishers exhaust the file descriptors
+		ts.CloseClientConnections()
 		// zones
 		nrec := []int{0, 1, 3, 19, 20, 21, 40, 41, 65}[r.IntN(9)]
 		if !env.Thorough() && nrec > 21 && r.IntN(2) == 0 {
@@ -387,19 +390,21 @@ func genC20(env *core.Env, emit func(core.Case)) {
 var rewriteOnce sync.Once
 var rewriteFake *fakeCF
 var rewriteURL *url.URL
+var rewritePub *publish.CloudflarePublisher
 
 func goRewrite(value, newB64 string) string {
 	rewriteOnce.Do(func() {
 		rewriteFake = &fakeCF{}
 		ts := httptest.NewServer(http.HandlerFunc(rewriteFake.handle))
 		rewriteURL, _ = url.Parse(ts.URL + "/client/v4/zones")
+		rewritePub = publish.NewCloudflarePublisher("test-token")
+		publish.VerifSetBaseURL(rewritePub, *rewriteURL)
 	})
 	rewriteFake.mu.Lock()
 	rewriteFake.zones = []*cfZoneT{{ID: "z", Name: "z.example", Recs: []*cfRec{{ID: "r", Name: "a.z.example", Value: value, Priority: 1, Target: "."}}}}
 	rewriteFake.faults = nil
 	rewriteFake.mu.Unlock()
-	p := publish.NewCloudflarePublisher("test-token")
-	publish.VerifSetBaseURL(p, *rewriteURL)
+	p := rewritePub
 	list, _ := base64.StdEncoding.DecodeString(newB64)
 	res := p.PublishECH(context.Background(), []publish.Target{{Zone: "z.example", Name: "a.z.example"}}, list)
 	if len(res) == 1 && res[0].Code == publish.StatusNoChange {
